@@ -17,6 +17,9 @@ def main():
   # anything the libraries print goes to stderr so that the result pipe stays clean
   os.dup2(2, 1)
   inp = sys.stdin.buffer
+  import faulthandler
+
+  faulthandler.enable(file=sys.stderr)  # a fatal signal leaves the Python stack in the tail the parent keeps
   import warp as wp
 
   wp.config.log_level = wp.LOG_WARNING
